@@ -372,7 +372,8 @@ def _run(case, stats, text, shadow, start_name):
     class R(object):
         errors = sim.W.errors
         swallowed = sim.W.swallowed
-    for e in common.undeclared_errors(R()):
+        server_errors = sim.W.server_errors
+    for e in common.undeclared_errors(R(), server=True):
         viol.append({'kind': 'undeclared-error',
                      'detail': {k: e.get(k) for k in
                                 ('type', 'msg', 'frame', 'where', 'label')}})
